@@ -561,3 +561,52 @@ def ipgen_part(ctx):
         outside='return of networks that are not held (the property only speaks about returns of held addresses); pools larger than /22 for operation sequences; '
                 'the DHCP message exchange (async transport) - only the generator, which every DHCP lease goes through under the server\'s write lock, is decided',
         assumptions=['BTreeSet modelled as a list kept sorted by the derived <IpRange as Ord>::cmp MIR', 'ip_generator.rs is compiled through a shim crate (#[path]-style copy next to a path dependency on elvis-core)'])
+
+
+FRAG_REPLAY = r'''
+use super::*;
+use crate::protocols::ipv4::{ipv4_parsing::{ControlFlags, Ipv4Header, TypeOfService}, Ipv4Address};
+'''
+
+
+def frag_native_replay(v):
+    from mirx import native
+    vals = v.get('values', {})
+    g = lambda k, d: int(vals.get(k, d))
+    mtu, total, off_in = g('mtu', 100), max(20, g('total', 200)), g('off_in', 0)
+    mf = 'true' if v['unit'].get('mf_in') else 'false'
+    L = ['#[test]\nfn mirx_replay_0() {', '    println!("\\nREPLAY-BEGIN mirx_replay_0");',
+         f'    let total: u16 = {total}; let mtu: u16 = {mtu}; let off_in: u16 = {off_in};',
+         '    let payload: Vec<u8> = (0..(total as usize - 20)).map(|i| ((i * 7 + 3) % 251) as u8).collect();',
+         f'    let h = Ipv4Header {{ ihl: 5, type_of_service: TypeOfService::from(0u8), total_length: total, identification: {g("id", 7) & 0xffff}, fragment_offset: off_in, flags: ControlFlags::new(true, !{mf}), time_to_live: 9, protocol: 17, checksum: 0, source: Ipv4Address::new([1, 2, 3, 4]), destination: Ipv4Address::new([5, 6, 7, 8]) }};',
+         '    let mut bad: Vec<String> = Vec::new();',
+         '    match fragment(h, Message::new(payload.clone()), mtu) {',
+         '        Fragments::DontFragment((_, b)) => { if b.to_vec() != payload { bad.push("pass-through body changed".into()); } }',
+         '        Fragments::Discard => bad.push("discarded although DF is clear".into()),',
+         '        Fragments::Fragmented(ps) => { let mut pos = 0usize; for (i, (ph, pb)) in ps.iter().enumerate() {',
+         '            let o = (ph.fragment_offset - off_in) as usize * 8; let bytes = pb.to_vec();',
+         '            if o != pos || o + bytes.len() > payload.len() || bytes[..] != payload[o..o + bytes.len()] { bad.push(format!("piece {} (header offset {} bytes, {} bytes) is not payload[{}..]", i, o, bytes.len(), pos)); }',
+         '            if ph.total_length as usize != 20 + bytes.len() { bad.push(format!("piece {} total_length", i)); }',
+         '            pos += bytes.len(); }',
+         '            if pos != payload.len() { bad.push("pieces do not cover the payload".into()); } }',
+         '    }',
+         '    println!("OP 0 RESULT {}", if bad.is_empty() { "AGREE".to_string() } else { bad.join(" | ") });', '}']
+    out, rc = native.run_tests(FRAG_REPLAY + '\n'.join(L), append_to='src/protocols/ipv4/fragmentation.rs', test_filter='mirx_replay_0')
+    lines = native.op_lines(out)
+    if not lines:
+        if 'panicked' in out:
+            return ('panic' in v['key']), 'native run panicked: ' + out[out.find('panicked'):][:200]
+        return False, 'native replay did not run: ' + out[-400:]
+    return ('AGREE' not in lines[0]), lines[0]
+
+
+def frag_content_part(ctx):
+    from mirx import fragspec
+    return generic_part(
+        ctx, 'fragment-content-placement', fragspec.units(ctx.tier), fragspec.worker,
+        unit_name=lambda u: f'MTU {u["mtu_lo"]}..={u["mtu_hi"]}, <= {u["pieces"]} pieces, incoming MF {"set" if u["mf_in"] else "clear"}',
+        unit_desc='real fragment() MIR on a datagram-or-fragment with symbolic MTU, total length, incoming offset and header fields; payload = one provenance extent',
+        replay_fn=frag_native_replay,
+        bounds='MTU 68..=1500 (thorough ..=65535) symbolic, total length symbolic with payload <= K * 8*floor((MTU-20)/8), K = 3 (thorough 5), incoming offset 0..=4000 symbolic, incoming MF set and clear',
+        outside='more pieces than K; DF set (decided by the Kani part); payload bytes themselves (a provenance extent stands for arbitrary bytes)',
+        assumptions=['Message modelled as provenance extents (cut/slice/concatenate split and join extents; faithfulness of the real Message is C07)'])
